@@ -190,3 +190,39 @@ CONTRACTS = CONTRACTS + [
     dict(name="dsw.graphized.path_matching", abstract=True, dispatch={"param": "has_indel", "true": "dsw.graphized.path_matching#indel", "false": "dsw.graphized.path_matching#subst"}),
     path_matching_variant(False), path_matching_variant(True),
 ]
+
+
+# ------------------------------------------------------------------ C19: shape and sign of the score table, on the real calculate_intersection_score
+SCORES_OK = ("forall(lambda v: forall(lambda j: scores[v][j] >= 0 and implies(scores[v][j] > 0, acc0[v][j] >= 0), 0, 4), 0, ipow(4, observed_length), "
+             "lambda v: scores[v])")
+CONTRACTS = CONTRACTS + [
+    dict(
+        # ASSUMED: the leaf query returns some 1-D integer array and modifies nothing (its value - the end points of depth-step walks - is C14's
+        # bounded clause); only the lengths of unions of such arrays enter the scores
+        name="dsw.graphized.obtain_leaf_vertices", assumed=True, n_loops=0,
+        params={"vertex_index": "int", "depth": "int", "accessor": "none", "latter_map": "dict"},
+        requires={}, returns="nd_int", ensures={"an-array": "len(result) >= 0"}, raises={},
+    ),
+    dict(
+        name="dsw.graphized.calculate_intersection_score#shape-sign", function="dsw.graphized.calculate_intersection_score",
+        variant_of="dsw.graphized.calculate_intersection_score", n_loops=6,
+        # acc0: the accessor the latter map describes (ghost)
+        ghost_params={"acc0": "mat(ipow(4, observed_length), 4)"},
+        params={"latter_map": "dict", "observed_length": "nat", "has_insertion": "bool", "has_deletion": "bool", "verbose": "false"},
+        requires={"graph": "observed_length >= 1 and is_accessor(acc0, observed_length)", "describes-acc0": "lm_of(latter_map, acc0, observed_length)"},
+        returns="mat(ipow(4, observed_length), 4)",
+        ensures={"shape": "len(result) == ipow(4, observed_length) and len(result[0]) == 4",
+                 "non-negative-and-positive-only-on-arcs": "forall(lambda v: forall(lambda j: result[v][j] >= 0 and implies(result[v][j] > 0, acc0[v][j] >= 0), 0, 4), "
+                                                           "0, ipow(4, observed_length), lambda v: result[v])"},
+        raises={},
+        types={"mutate_branches": "list_obj"},
+        ghost={"entry": "ipow_mono(4, 0, observed_length)\nipow_mono(4, 0, observed_length - 1)\n"
+                        "assert ipow(4, observed_length) == 4 * ipow(4, observed_length - 1), 'pow-step'",
+               "loop1_begin": "mark(current_index)\nassert haskey(latter_map, current_index), 'listed-key'\n" +
+                              "".join("if acc0[current_index][%d] >= 0:\n    pass\n" % j for j in range(4)),
+               "loop4_begin": "if index == 0:\n    pass\nelif index == 1:\n    pass\nelif index == 2:\n    pass\n"},
+        loops={1: dict(binds="enumerate(currents)", invariant={"scores-so-far": SCORES_OK}),
+               4: dict(binds="enumerate(latter_map[current_index])", invariant={"scores-so-far": SCORES_OK}),
+               5: dict(binds="latter_map[former_index]", invariant={"scores-so-far": SCORES_OK})},
+    ),
+]
